@@ -266,6 +266,7 @@ void MEDDLY::prepost_set_mtrel<EOP, ATYPE>::_compute(int L,
         ATYPE::setUnreachable(cv, C);
         EOP::accumulateOp(cv, av);
         C = resF->makeRedundantsTo(C, Clevel, L);
+        EOP::normalize(cv, C);
         return;
     }
 
